@@ -48,6 +48,14 @@ def tiny_configs(tier):
     add('BeliefPropagationOSDDecoder', 'Toric2DCode', (3, 3), p=0.02, dec_kwargs=bp)
     add('BeliefPropagationOSDDecoder', 'Planar2DCode', (2, 2), noise='Zbias', p=0.02, dec_kwargs=bp)
     add('BeliefPropagationOSDDecoder', 'RotatedPlanar2DCode', (2, 2), dec_kwargs=dict(bp, channel_update=True))
+    # syndromes the channel itself can never produce (structural zeros in the
+    # channel), every ordered pair, with another decoder object working in between
+    add('BeliefPropagationOSDDecoder', 'RotatedPlanar2DCode', (2, 3), noise='X',
+        dec_kwargs=dict(bp, channel_update=True), _intruder_p=0.45)
+    add('BeliefPropagationOSDDecoder', 'Toric2DCode', (2, 2), noise='Z',
+        dec_kwargs=dict(bp, channel_update=True), _intruder_p=0.45)
+    add('BeliefPropagationOSDDecoder', 'Toric2DCode', (2, 3), noise='X', p=0.1,
+        dec_kwargs=dict(bp, channel_update=True), _intruder_p=0.45)
     add('BeliefPropagationOSDDecoder', 'RotatedPlanar2DCode', (2, 3), code_def='XZZX', code_def_kw={}, dec_kwargs=bp)
     add('BeliefPropagationOSDDecoder', 'Planar2DCode', (2, 2), code_def='XY', code_def_kw={}, p=0.02, dec_kwargs=bp)
     add('BeliefPropagationOSDDecoder', 'Color666PlanarCode', (1, 1), p=0.05, dec_kwargs=bp)
@@ -97,6 +105,19 @@ def larger_configs(tier):
         for noise in (('depol', 'Zbias') if tier != 'quick' else ('depol',)):
             cfgs.append({'decoder': 'BeliefPropagationOSDDecoder', 'code': cname,
                          'size': list(size), 'noise': noise, 'p': p, 'dec_kwargs': dict(bpu)})
+    # two decoder objects at different rates taking turns (nothing may leak from
+    # one to the other), on channels with structural zeros
+    for cname, size, noise, nd, p, ip in [('Toric2DCode', (3, 3), 'X', None, 0.1, 0.45),
+                                          ('Toric2DCode', (3, 4), 'Z', 'XZZX', 0.1, 0.4),
+                                          ('Planar2DCode', (3, 3), 'depol', None, 0.08, 0.3),
+                                          ('RotatedPlanar2DCode', (3, 3), 'Y', None, 0.1, 0.45)]:
+        cfgs.append({'decoder': 'BeliefPropagationOSDDecoder', 'code': cname, 'size': list(size),
+                     'noise': noise, 'noise_def': nd, 'noise_def_kw': {} if nd else None, 'p': p,
+                     'dec_kwargs': dict(bpu), '_intruder_p': ip})
+    cfgs.append({'decoder': 'MatchingDecoder', 'code': 'Toric2DCode', 'size': [3, 4], 'noise': 'Zbias',
+                 'p': 0.08, '_intruder_p': 0.3})
+    cfgs.append({'decoder': 'UnionFindDecoder', 'code': 'Toric2DCode', 'size': [4, 4], 'noise': 'depol',
+                 'p': 0.06, '_intruder_p': 0.2})
     # the randomised sweep decoders: no purity across objects is required, but
     # the caller's syndrome and the noise tables must be left alone
     for dname, cname, size in [('SweepMatchDecoder', 'Toric3DCode', (3, 3, 3)),
@@ -129,11 +150,25 @@ def larger_configs(tier):
 def drive(cfg):
     tier = cfg.pop('_tier')
     long_hist = cfg.pop('_long', False)
+    intruder_p = cfg.pop('_intruder_p', None)
     rng = np.random.default_rng(common.seed() + abs(hash(D.config_label(cfg))) % 2**31)
     rec = D.Recorder(cfg)
     code, em = rec.code, rec.em
     if not rec.construct(0):
         return rec.record()
+    intruder = None
+    if intruder_p is not None:
+        # ANOTHER decoder object of the same class on the same code and noise
+        # model, at another error rate, works in between the recorded calls
+        import contextlib
+        import io
+        intruder = D.new_decoder(dict(cfg, p=intruder_p), code, em)
+        irng = np.random.default_rng(77)
+
+        def intrude():
+            with contextlib.redirect_stdout(io.StringIO()):
+                e = em.generate(code, min(0.3, intruder_p), rng=irng)
+                intruder.decode(np.asarray(code.measure_syndrome(e)).ravel())
     m = code.stabilizer_matrix.shape[0]
     if long_hist:
         n_calls = 120 if tier == 'quick' else 400
@@ -172,7 +207,9 @@ def drive(cfg):
             seq = [uniq[j] for j in order]
             distinct = {s.tobytes(): s for s in uniq}
             mode = f'all ordered pairs of {len(uniq)} valid syndromes (incl. zero and sector-wise zero)'
-    for s in seq:
+    for j_, s in enumerate(seq):
+        if intruder is not None and j_ % 2 == 0:
+            intrude()
         rec.decode(0, s.astype(np.uint8))
     # every distinct syndrome once on a fresh object
     for k, s in enumerate(distinct.values(), start=1):
